@@ -1292,9 +1292,23 @@ class Config:  # pylint: disable=too-many-instance-attributes
         :param sensitive_mask: mask secure values with a string
         :returns: the basic tree containing all set values
         """
-        tree = {}
         fields: Dict[str, BaseField] = dict(self._schema._fields)
         fields.update(self._fields)
+        # configurations held inside list / dict values (at any depth) are rendered by the
+        # container field's to_basic(): let it see the options of this call
+        self._tree_options = {"virtual": virtual, "sensitive_mask": sensitive_mask}
+        try:
+            return self._to_tree(fields, virtual, sensitive_mask)
+        finally:
+            self._tree_options = None
+
+    def _to_tree(
+        self,
+        fields: Dict[str, BaseField],
+        virtual: bool,
+        sensitive_mask: Optional[str],
+    ) -> dict:
+        tree = {}
 
         for key, field in fields.items():
             is_virtual = virtual and isinstance(field, VirtualFieldMixin)
